@@ -146,7 +146,8 @@ impl McGroupSetupAnsCreator {
 impl McGroupSetupReqCreator {
     pub fn mc_group_id_header(&mut self, mc_group_id_header: u8) -> &mut Self {
         const OFFSET: usize = 1;
-        self.data[OFFSET] = mc_group_id_header;
+        self.data[OFFSET] &= 0b1111_1100;
+        self.data[OFFSET] |= mc_group_id_header & 0b11;
         self
     }
 
